@@ -58,6 +58,7 @@ from mypyc.ir.ops import (
     BasicBlock,
     Branch,
     Call,
+    Cast,
     InitStatic,
     Integer,
     LoadAddress,
@@ -1467,15 +1468,27 @@ def transform_yield_expr(builder: IRBuilder, expr: YieldExpr) -> Value:
         retval = builder.accept(expr.expr)
     else:
         retval = builder.builder.none()
-    return emit_yield(builder, retval, expr.line)
+    return copy_to_temp(builder, emit_yield(builder, retval, expr.line), expr.line)
 
 
 def transform_yield_from_expr(builder: IRBuilder, o: YieldFromExpr) -> Value:
-    return emit_yield_from_or_await(builder, builder.accept(o.expr), o.line, is_await=False)
+    result = emit_yield_from_or_await(builder, builder.accept(o.expr), o.line, is_await=False)
+    return copy_to_temp(builder, result, o.line)
 
 
 def transform_await_expr(builder: IRBuilder, o: AwaitExpr) -> Value:
-    return emit_yield_from_or_await(builder, builder.accept(o.expr), o.line, is_await=True)
+    result = emit_yield_from_or_await(builder, builder.accept(o.expr), o.line, is_await=True)
+    return copy_to_temp(builder, result, o.line)
+
+
+def copy_to_temp(builder: IRBuilder, reg: Value, line: int) -> Value:
+    """Copy the value of a yield/await expression out of the register that receives it.
+
+    The register is overwritten by the next send(), and registers are not spilled: if the
+    value is still needed after another yield/await of the same expression, it must be an
+    op value, which the spill transform preserves across the suspension.
+    """
+    return builder.add(Cast(reg, reg.type, line))
 
 
 def transform_match_stmt(builder: IRBuilder, m: MatchStmt) -> None:
